@@ -268,6 +268,7 @@ func sizes(f codec.Frame) []int {
 func main() {
 	ctx := hx.Start("h265")
 	defer ctx.Finish()
+	ctx.Sample("rtph265: access units of 1..21 NAL units, sizes at every single/AP/FU threshold +-8, limits 4..9000; hostile FU/AP/PACI grammars; PTSEqualsDTS fuzz")
 	if lines := ctx.ReplayLines(); lines != nil {
 		h26x.Replay(ctx, Format, lines, ptsEq)
 		return
